@@ -49,7 +49,33 @@ def resultScalar (a : DType) (k : Nat) : DType :=
   if k ≤ a.kind then a
   else if k = 1 then f64
   else if a = f32 then c64 else c128
+/-- `np.can_cast(a, b, casting="safe")` -/
+def safeCast (a b : DType) : Bool :=
+  a == b ||
+  match a, b with
+  | i64, f64 | i64, c128 => true
+  | f32, f64 | f32, c64 | f32, c128 => true
+  | f64, c128 => true
+  | c64, c128 => true
+  | _, _ => false
 end DType
+
+/-- what numpy stores when a value is converted to a dtype (`ndarray.astype`, `np.array(.., dtype=..)`):
+rounding to single precision for `f32`/`c64`, the real part for real dtypes.  The model only says
+*where* conversions happen (`copy(dtype=..)`, the array of a collection); the function itself is a
+parameter (exact complex rationals in the driver, arbitrary in the theorems). -/
+class DCast (K : Type) where
+  dcast : DType → K → K
+
+/-- conversion to `dt` if a dtype is given (`dtype=None`: the array is copied as it is) -/
+def castCells {K : Type} [DCast K] (dt : Option DType) (cells : List (Option K)) : List (Option K) :=
+  match dt with
+  | none => cells
+  | some d => cells.map (fun x => x.map (DCast.dcast d))
+
+theorem length_castCells {K : Type} [DCast K] (dt : Option DType) (cells : List (Option K)) :
+    (castCells dt cells).length = cells.length := by
+  unfold castCells; split <;> simp
 
 /-! ### store -/
 
@@ -143,6 +169,11 @@ deriving Repr, Inhabited
 structure State (K : Type) where
   store : Store K := {}
   objs : List Obj := []
+  /-- per object: the array its `_data_valid` (what the property `data` returns) was carved from.
+  The code keeps it in a separate attribute: the setter of `_data_full` re-creates it
+  (base.py:175-176) and `__setstate__` restores it (base.py:95-100).  "`data` is a live view of
+  the padded array" is the statement `dviews[i] = objs[i].view` (`DataLive`). -/
+  dviews : List View := []
 
 /-- position `p` of an object's padded array is a valid cell (raw arrays have no ghost cells) -/
 def validSel (G : List Grid) (o : Obj) (p : Nat) : Bool :=
@@ -163,17 +194,22 @@ variable {K : Type}
 
 /-! four primitive state changes; every operation is a composition of these -/
 
-/-- a new Python object looking at existing memory -/
-def pushObj (s : State K) (o : Obj) : State K := { s with objs := s.objs ++ [o] }
+/-- a new Python object looking at existing memory (`cls(grid, data=arr, with_ghost_cells=True)`:
+`self._data_full = data`, whose setter also sets `_data_valid`) -/
+def pushObj (s : State K) (o : Obj) : State K :=
+  { s with objs := s.objs ++ [o], dviews := s.dviews ++ [o.view] }
 
 /-- a new array together with a new Python object owning it; object id = `s.objs.length` -/
 def allocObj (s : State K) (cells : List (Option K)) (dt : DType) (o : Obj) : State K :=
   { store := s.store.alloc cells dt
-    objs := s.objs ++ [{ o with view := ⟨s.store.next, 0, cells.length⟩ }] }
+    objs := s.objs ++ [{ o with view := ⟨s.store.next, 0, cells.length⟩ }]
+    dviews := s.dviews ++ [⟨s.store.next, 0, cells.length⟩] }
 
-/-- `field._data_full = <other array>`: the object now looks at other memory -/
+/-- `field._data_full = <other array>` (base.py:147-176): the object now looks at other memory,
+and the setter re-creates `_data_valid` from the new array -/
 def relink (s : State K) (m : Nat) (v : View) : State K :=
-  { s with objs := s.objs.modify m (fun o => { o with view := v }) }
+  { s with objs := s.objs.modify m (fun o => { o with view := v })
+           dviews := s.dviews.modify m (fun _ => v) }
 
 /-- write through view `v` at the positions selected by `sel`; `g p old` is the new content -/
 def writeSel (s : State K) (v : View) (sel : Nat → Bool) (g : Nat → Option K → Option K) :
@@ -228,8 +264,10 @@ inductive Op (K : Type)
   /-- `h.set_ghost_cells(bc)`: the boundary-condition setter writes virtual points only; the
   values are an oracle (`none` = left alone) -/
   | setGhosts (h : Nat) (vals : List (Option K))
-  /-- `vector[c]`, `tensor[i, j]` with `c = i*dim + j` -/
+  /-- `vector[c]` (also: flat component `c` of a tensor) -/
   | component (h : Nat) (c : Nat)
+  /-- `tensor[i, j]`: component `tensorSlot dim i j = i*dim + j` (row-major) -/
+  | tcomponent (h : Nat) (i j : Nat)
   /-- `FieldCollection(fields, copy_fields=.., dtype=..)` -/
   | mkColl (hs : List Nat) (copyFields : Bool) (dt : Option DType)
   /-- `collection[i:j:k]`; `idx = range(*slice(i,j,k).indices(len(collection)))` -/
@@ -249,11 +287,24 @@ inductive Op (K : Type)
   /-- `storage.append(h)`: `np.array(h.data)` is kept (memory.py:207-218); `into` is the dtype of the
   storage: data that cannot be cast to it (`same_kind`) are rejected (storage/base.py:149-155) -/
   | storeFrame (h : Nat) (into : Option DType)
-  /-- `f = template.copy(); f.data = frame`: what `storage[i]` returns -/
+  /-- `f = template.copy(dtype=..); f.data = frame`: what `storage[i]` returns (`loadDType`) -/
   | loadFrame (template : Nat) (frame : Nat)
+  /-- `h.apply_operator(name, bc, out=out)` (datafield_base.py:935-963): the boundary condition
+  writes virtual points of the operand (`ghosts`: oracle values, `none` = left alone); the result
+  (`vals`: oracle values of the stencil) goes to the valid cells of a new
+  `out_cls(grid, "empty", dtype=h.dtype)` or of `out` -/
+  | applyOperator (h : Nat) (ghosts : List (Option K)) (outCls : Cls) (out : Option Nat)
+      (vals : List K)
+  /-- `cls(grid, data=f(h.data))`: `to_scalar`, `real`, `imag`, `conjugate` (base.py:461-471
+  `_unary_operation`, scalar/vectorial/tensorial `to_scalar`): a new padded array, valid cells
+  only, dtype re-derived from the data -/
+  | derive (h : Nat) (cls : Cls) (cplx : Bool) (vals : List K)
+  /-- `h.apply(func, out=out)` (base.py:716-722), `tensor.transpose()` (tensorial.py:416,431):
+  `out = h.copy()` unless given, then `out.data[...] = vals` -/
+  | applyFn (h : Nat) (out : Option Nat) (vals : List K)
 
 section
-variable {K : Type} [Add K] [Sub K] [Mul K] [Div K] [Neg K] [NatCast K]
+variable {K : Type} [Add K] [Sub K] [Mul K] [Div K] [Neg K] [NatCast K] [DCast K]
 
 def npow (x : K) : Nat → K
   | 0 => ((1 : Nat) : K)
@@ -292,9 +343,11 @@ def mkNeg (G : List Grid) (st : Store K) (o : Obj) : List (Option K) × DType :=
   ((st.readView o.view).mapIdx (fun p x => if validSel G o p then x.map (fun y => -y) else none),
    (st.dtOf o.view.buf).common)
 
-/-- `DataFieldBase.copy`: a new array with the whole padded data, a new object; id = `s.objs.length` -/
-def copyField (s : State K) (o : Obj) (dt : DType) : State K :=
-  s.allocObj (s.store.readView o.view) dt { o with members := [] }
+/-- `DataFieldBase.copy(dtype=dt)` = `np.array(self._data_full, dtype=dt, copy=True)`: a new array
+with the whole padded data (ghost cells included) converted to `dt`, a new object; id = `s.objs.length` -/
+def copyField (s : State K) (o : Obj) (dt : Option DType) : State K :=
+  s.allocObj (castCells dt (s.store.readView o.view)) (dt.getD (s.store.dtOf o.view.buf))
+    { o with members := [] }
 
 /-- `[make(f) for f in fields]` where `make` builds a new field on a new array from an existing
 one (`mk` gives content and dtype of the new array); returns the ids of the new objects -/
@@ -317,11 +370,13 @@ def relinkAll (s : State K) (b : Nat) : List Nat → List Nat → Nat → State 
   | m :: ms, l :: ls, off => relinkAll (s.relink m ⟨b, off, l⟩) b ms ls (off + l)
   | _, _, _ => s
 
-/-- content of the new collection array: gathered from the members (`np.array(fields_data)`), or the
-copy of an existing collection array (deep copy) -/
-def collCells (s : State K) (os : List Obj) (src : Option (View × DType)) : List (Option K) :=
+/-- content of the new collection array: gathered from the members and converted to the dtype of
+the collection (`number_array(fields_data, dtype=dtype)`, ghost cells included), or the copy of an
+existing collection array (deep copy) -/
+def collCells (s : State K) (os : List Obj) (src : Option (View × DType)) (dtOut : DType) :
+    List (Option K) :=
   match src with
-  | none => os.flatMap (fun o => s.store.readView o.view)
+  | none => castCells (some dtOut) (os.flatMap (fun o => s.store.readView o.view))
   | some (v, _) => s.store.readView v
 
 /-- dtype of the new collection array: `dtype=` if given, else `number_array`'s default (cdouble if
@@ -351,8 +406,8 @@ def linkFrom (s : State K) (ms : List Nat) (grid : Nat) (src : Option (View × D
     else if os.any (fun o => o.grid != grid) then .error .gridMismatch
     else if os.any (fun o => o.cls == .coll || o.cls == .raw) then .error .nested
     else
-    let cells := collCells s os src
     let dtOut := collDType s os src dt
+    let cells := collCells s os src dtOut
     -- the slices of the members tile the array (always true; keeps the model total)
     if cells.length != (os.map (·.view.len)).sum then .error .badArg else
     let c : Obj := { cls := .coll, grid := grid, ncomp := (os.map (·.ncomp)).sum,
@@ -393,7 +448,7 @@ def copyAny (s : State K) (o : Obj) (dt : Option DType) : Except Err (State K) :
   match o.cls with
   | .raw => .error .badArg
   | .coll => copyColl s o dt
-  | _ => .ok (copyField s o (dt.getD (s.store.dtOf o.view.buf)))
+  | _ => .ok (copyField s o dt)
 
 /-- `FieldBase.assert_field_compatible` / `FieldCollection.assert_field_compatible` -/
 def fieldCompat (a b : Obj) : Except Err Unit :=
@@ -573,13 +628,31 @@ def deepcopy (s : State K) (o : Obj) : Except Err (State K) :=
     | .ok os =>
       linkFrom (mapEach mkCopy s os).1 (mapEach mkCopy s os).2 o.grid
         (some (o.view, s.store.dtOf o.view.buf)) none
-  else .ok (copyField s o (s.store.dtOf o.view.buf))
+  else .ok (copyField s o none)
 
 /-- `vector[c]` / `tensor[i, j]`: a new scalar field object looking at block `c` of the padded
 array (vectorial.py:165-179, tensorial.py:149-156) -/
 def compObj (o : Obj) (c : Nat) : Obj :=
   { cls := .scalar, grid := o.grid, ncomp := 1,
     view := ⟨o.view.buf, o.view.off + c * (o.view.len / o.ncomp), o.view.len / o.ncomp⟩ }
+
+/-- row-major position of component `(i, j)` of a rank-2 tensor field: `self._data_full[i, j]` of a
+C-contiguous array of shape `(dim, dim, *grid)` (tensorial.py:149-156) -/
+def tensorSlot (dim i j : Nat) : Nat := i * dim + j
+
+/-- the component view on block `c` -/
+def componentAt (s : State K) (o : Obj) (c : Nat) : Except Err (State K) :=
+  if (o.cls == .vector || o.cls == .tensor) && decide (c < o.ncomp) then
+    .ok (s.pushObj (compObj o c))
+  else .error .badArg
+
+/-- storage/base.py:286-293 (`_get_field`, since /repo d0418b1): the field returned for a stored frame
+is a copy of the template if the template's dtype can hold the frame (`np.can_cast(.., "safe")`),
+otherwise a copy converted to `np.result_type(frame, template)` - frames are never narrowed -/
+def loadDType (s : State K) (ot fr : Obj) : Option DType :=
+  let dtf := s.store.dtOf fr.view.buf
+  let dtt := s.store.dtOf ot.view.buf
+  if dtf.safeCast dtt then none else some (dtf.result dtt)
 
 /-- storage/base.py:149-155: `not np.can_cast(field.dtype, storage.dtype, casting="same_kind")` -/
 def storeRejected (into : Option DType) (d : DType) : Bool :=
@@ -613,10 +686,17 @@ def step (G : List Grid) (s : State K) (op : Op K) : Except Err (State K) :=
   | .component h c =>
     match getObj s h with
     | .error e => .error e
+    | .ok o => componentAt s o c
+  | .tcomponent h i j =>
+    match getObj s h with
+    | .error e => .error e
     | .ok o =>
-      if (o.cls == .vector || o.cls == .tensor) && decide (c < o.ncomp) then
-        .ok (s.pushObj (compObj o c))
-      else .error .badArg
+      match G[o.grid]? with
+      | none => .error .badArg
+      | some gr =>
+        if o.cls == .tensor && decide (i < gr.dim) && decide (j < gr.dim) then
+          componentAt s o (tensorSlot gr.dim i j)
+        else .error .badArg
   | .mkColl hs cp dt => mkColl s hs cp dt
   | .slice c idx =>
     match getObj s c with
@@ -660,10 +740,50 @@ def step (G : List Grid) (s : State K) (op : Op K) : Except Err (State K) :=
     | _, .error e => .error e
     | .ok ot, .ok fr =>
       if fr.cls != .raw then .error .badArg else
-      copyThenWrite G s ot none (fun s1 r p old =>
+      copyThenWrite G s ot (loadDType s ot fr) (fun s1 r p old =>
         match (scatter (selList G r) (s1.store.readView fr.view))[p]? with
         | some (some x) => x
         | _ => old)
+  | .applyOperator h ghosts outCls out vals =>
+    match getObj s h with
+    | .error e => .error e
+    | .ok o =>
+      if o.cls == .raw || o.cls == .coll then .error .badArg else
+      -- `self.set_ghost_cells(bc)`: virtual points of the operand
+      let s1 := s.writeSel o.view (fun p => !validSel G o p) (fun p old =>
+        match ghosts[p]? with | some (some x) => some x | _ => old)
+      match out with
+      | none => mkField G s1 outCls o.grid (some (s.store.dtOf o.view.buf)) false (.valid vals)
+      | some j =>
+        match getObj s1 j with
+        | .error e => .error e
+        | .ok oj =>
+          if oj.cls != outCls then .error .classMismatch
+          else if oj.grid != o.grid then .error .gridMismatch
+          else .ok (s1.writeSel oj.view (validSel G oj) (fun p old =>
+            match vals[p]? with | some x => some x | none => old))
+  | .derive h cls cplx vals =>
+    match getObj s h with
+    | .error e => .error e
+    | .ok o =>
+      if o.cls == .raw || o.cls == .coll then .error .badArg
+      else mkField G s cls o.grid none cplx (.valid vals)
+  | .applyFn h out vals =>
+    match getObj s h with
+    | .error e => .error e
+    | .ok o =>
+      if o.cls == .raw then .error .badArg else
+      match out with
+      | none => copyThenWrite G s o none (fun _ _ p old =>
+          match vals[p]? with | some x => some x | none => old)
+      | some j =>
+        match getObj s j with
+        | .error e => .error e
+        | .ok oj =>
+          if oj.cls != o.cls then .error .classMismatch
+          else if oj.grid != o.grid then .error .gridMismatch
+          else .ok (s.writeSel oj.view (validSel G oj) (fun p old =>
+            match vals[p]? with | some x => some x | none => old))
 
 /-- a whole history; failing operations are skipped (they leave the state unchanged) -/
 def run (G : List Grid) (s : State K) : List (Op K) → State K
